@@ -3,6 +3,7 @@ pub mod c02;
 pub mod c03;
 pub mod c04;
 pub mod c07;
+pub mod c08;
 pub mod c09;
 pub mod c10;
 pub mod c11;
@@ -20,6 +21,7 @@ pub fn plan(prop: &str, tier: &str) -> Option<u64> {
         "C03" => c03::plan(tier),
         "C04" => c04::plan(tier),
         "C07" => c07::plan(tier),
+        "C08" => c08::plan(tier),
         "C09" => c09::plan(tier),
         "C10" => c10::plan(tier),
         "C11" => c11::plan(tier),
@@ -38,6 +40,7 @@ pub fn run_case(prop: &str, tier: &str, seed: u64, idx: u64) -> CaseOut {
         "C03" => c03::run_case(tier, seed, idx),
         "C04" => c04::run_case(tier, seed, idx),
         "C07" => c07::run_case(tier, seed, idx),
+        "C08" => c08::run_case(tier, seed, idx),
         "C09" => c09::run_case(tier, seed, idx),
         "C10" => c10::run_case(tier, seed, idx),
         "C11" => c11::run_case(tier, seed, idx),
